@@ -10,7 +10,24 @@ ElemSize(c) == CASE c \in {"b", "B"} -> 1
                  [] c \in {"h", "H"} -> 2
                  [] c \in {"i", "I"} -> 4
                  [] c \in {"q", "Q", "x"} -> 8
-Size(f) == f.n * ElemSize(f.c)
+(* A format is n elements of one letter c, or - when it has a field `els` - a sequence of element letters with
+   "pad" for a pad byte; a field `o` holds its byte-order prefix ("" = native).  Sizes follow the struct module:
+   with a byte order the elements are packed, natively every element is aligned to its own size (no padding at
+   the end).  So a size need not be a multiple of the size of any element.                                   *)
+Els(f) == IF "els" \in DOMAIN f THEN f.els ELSE [i \in 1 .. f.n |-> f.c]
+IsNative(f) == IF "o" \in DOMAIN f THEN f.o = "" ELSE TRUE
+ESize(c) == IF c = "pad" THEN 1 ELSE ElemSize(c)
+RECURSIVE EndOf(_, _, _, _)
+EndOf(e, native, i, off) ==
+    IF i > Len(e) THEN off
+    ELSE LET a == ESize(e[i])
+             at == IF native THEN ((off + a - 1) \div a) * a ELSE off IN
+         EndOf(e, native, i + 1, at + a)
+Size(f) == IF "els" \in DOMAIN f THEN EndOf(f.els, IsNative(f), 1, 0) ELSE f.n * ElemSize(f.c)
+(* the letters of the elements that carry a value *)
+RECURSIVE NoPads(_, _, _)
+NoPads(e, i, acc) == IF i > Len(e) THEN acc ELSE NoPads(e, i + 1, IF e[i] = "pad" THEN acc ELSE Append(acc, e[i]))
+VLetters(f) == NoPads(Els(f), 1, <<>>)
 Signed(c) == c \in {"b", "h", "i", "q", "x"}
 
 Slot(pos, f) == [pos |-> pos, size |-> Size(f)]
